@@ -18,7 +18,9 @@ Inductive action :=
 | AList                    (* return [obj] *)
 | AStr                     (* return the key as a plain str *)
 | AFalsy                   (* return an object whose bool() is False *)
-| ADropSrc.                (* return an object whose .source is None *)
+| ADropSrc                 (* return an object whose .source is None *)
+| AOdd (cls : str).        (* return a value of class cls whose source cannot be discovered (dict with an odd "info",
+                              object whose .source lookup raises, object without source) *)
 
 Record sspec := mkspec {
   sp_name : str;
@@ -76,6 +78,7 @@ Definition mk_main (sp : sspec) (v : value) : outcome :=
     | AStr => Ret (VStr k)
     | AFalsy => Ret (VObj (sp_out sp) k t s false)
     | ADropSrc => Ret (VObj (sp_out sp) k t None true)
+    | AOdd cls => Ret (VObj cls k t None true)
     end
   end.
 
